@@ -74,3 +74,10 @@ def fill(check, NA):
           "deviations from FIFO by a controlled Core.step; sensor models checked against reference sensors on a rotation lattice",
           "trusted: numpy; thresholds 3x the worst observed over the thorough lattice; randn stubbed, noise off",
           "bounded exhaustive exploration of closed-loop histories over a configuration lattice + deviation-bounded schedule exploration of the real simpy bus", "DESIGN.md section 4 C12")
+
+    check("C13", "exploration",
+          "the compiled control_allocation program executed in exact rational arithmetic (sxvm, Fraction; NaN-like poison for divisions in unselected branches) over the image of a complete lattice of target "
+          "motor-force vectors (every exact tie of the headroom logic occurs) and a cube of raw demands from negative to far beyond saturation, for three constant sets; exact equalities for bounds, exact "
+          "reproduction of jointly achievable demands, exact moment and least collective shift when the moment alone fits; omega judged in double",
+          "trusted: Fraction arithmetic; vehicle geometry sign pattern as in the shipped quadrotor model",
+          "bounded exhaustive enumeration with exact-arithmetic interpretation of the real instruction list; branch cells counted", "DESIGN.md section 4 C13")
